@@ -4,6 +4,7 @@
 # several seeded changes can be tried at the same time. /repo and
 # /verif/evidence are not touched. For exploration only; the recorded results
 # in seeded/*/meta.json come from run_mutant.sh (the change applied to /repo).
+# VERIF_BIN=<path> uses another driver binary than /verif/bin/verif-check.
 D=$(cd "$1" && pwd); P=$2; T=${3:-quick}; S=${4:-1}
 export GOFLAGS=-mod=mod GOPROXY=off
 unset GOTOOLCHAIN GOSUMDB GORACE
@@ -13,7 +14,7 @@ git -C /repo worktree add -q --detach "$WT" HEAD || { echo "BROKEN worktree"; ex
 trap 'git -C /repo worktree remove --force "$WT" 2>/dev/null; rm -rf "$WT"' EXIT
 git -C "$WT" apply "$D/patch.diff" || { echo "BROKEN patch does not apply"; exit 2; }
 mkdir -p "$WT/_out"
-VERIF_REPO=$WT VERIF_OUT=$WT/_out VERIF_SEED=$S /verif/bin/verif-check "$P" "$T" > "$D/try_${P}_${T}_$S.log" 2>&1
+VERIF_REPO=$WT VERIF_OUT=$WT/_out VERIF_SEED=$S ${VERIF_BIN:-/verif/bin/verif-check} "$P" "$T" > "$D/try_${P}_${T}_$S.log" 2>&1
 rc=$?
 case $rc in
  1) echo "DETECTED $(basename $D) by $P $T seed=$S: $(grep -m1 -A1 '^VIOLATION' $D/try_${P}_${T}_$S.log | tail -1 | cut -c1-220)";;
